@@ -30,7 +30,7 @@ MANIFEST = {
 
 GEN = LEAN / "UvModel/Generated/AsyncSeq.lean"
 FUNCS = [("uv_async_send", "asyncSendSeq"), ("uv__async_send", "asyncWakeupSeq"), ("uv__async_io", "asyncIoSeq"),
-         ("uv__async_spin", "asyncSpinSeq"), ("uv__async_close", "asyncCloseSeq")]
+         ("uv__async_spin", "asyncSpinSeq"), ("uv__async_close", "asyncCloseSeq"), ("uv__async_fork", "asyncForkSeq")]
 
 
 # ----------------------------------------------------------------------------- Tie A: instruction order
@@ -71,6 +71,7 @@ TOK_RE = re.compile(
     r"|(?P<qmove>\buv__queue_move\s*\()|(?P<qpop>\buv__queue_insert_tail\s*\()|(?P<unlink>\buv__queue_remove\s*\(\s*&)"
     r"|(?P<spin>\buv__async_spin\s*\()|(?P<hstop>\buv__handle_stop\s*\()"
     r"|(?P<kevent>\bkevent\s*\()"
+    r"|(?P<pstore>->\s*(?P<pvar>pending|u\.fd)\s*=\s*(?P<pval>-?\d+)\s*;)|(?P<restart>\buv__async_start\s*\()"
     r"|(?P<doloop>\bdo\b)|(?P<whilecond>\bwhile\s*\()|(?P<eintr>\berrno\s*==\s*EINTR\b)|(?P<eagain>\berrno\s*==\s*EAGAIN\b)")
 
 
@@ -101,13 +102,15 @@ def extract_tokens(body):
                 out.append(f'.other "{re.sub(r"[^A-Za-z0-9_(), -]", "", m.group("atomic"))[:60]}"')
             if m.group("cmp"):
                 out.append(".ifEq0" if m.group("cmp") == "==" else ".ifNe0")
+        elif m.group("pstore"):
+            out.append(".plainStore %s %s" % (".pending" if m.group("pvar") == "pending" else ".busy", lean_int(m.group("pval"))))
         else:
             kind = m.lastgroup
             out.append({"ret": ".ret", "cont": ".cont", "wakeup": ".wakeup", "write": ".writeEfd", "read": ".readEfd",
                         "cbnull": ".cbNullCheck", "cb": ".callback", "qmove": ".queueMove", "qpop": ".queuePop",
                         "unlink": ".unlink", "spin": ".spin", "hstop": ".handleStop",
                         "kevent": '.other "kevent"', "doloop": ".doLoop", "whilecond": ".whileCond",
-                        "eintr": ".ifEintr", "eagain": ".ifEagain"}[kind])
+                        "eintr": ".ifEintr", "eagain": ".ifEagain", "restart": ".restart"}[kind])
     return out
 
 
@@ -136,10 +139,10 @@ def gen_async_seq(ctx):
 
 
 # ----------------------------------------------------------------------------- configurations
-def cfg_line(nh, close, senders, sig=(), free="safe", eintr=0, cap=None):
-    return ("cfg nh=%d close=%s senders=%s sig=%s free=%s eintr=%d cap=%s" % (
+def cfg_line(nh, close, senders, sig=(), free="safe", eintr=0, cap=None, fork=0):
+    return ("cfg nh=%d close=%s senders=%s sig=%s free=%s eintr=%d cap=%s fork=%d" % (
         nh, ",".join(map(str, close)) or "-", ";".join(",".join(map(str, p)) for p in senders) or "-",
-        ",".join(f"{t}:{v}" for t, v in sig) or "-", free, eintr, "-" if cap is None else cap))
+        ",".join(f"{t}:{v}" for t, v in sig) or "-", free, eintr, "-" if cap is None else cap, fork))
 
 
 DFS_QUICK = [
@@ -156,6 +159,8 @@ DFS_QUICK = [
     cfg_line(1, [], [[0], [0]], eintr=2),             # wake-up write / drain read interrupted (EINTR), any call, up to twice
     cfg_line(2, [], [[0], [1]], eintr=1, cap=1),      # counter saturated: the second effective send's write answers EAGAIN
     cfg_line(1, [0], [[0, 0]], eintr=1, cap=1),
+    cfg_line(1, [], [[0, 0]], fork=1),                # fork + uv_loop_fork at any quiescent point of the loop: sends before / across / after
+    cfg_line(2, [1], [[0], [1]], fork=1),             # ... with a second sender thread (lost in the child when mid-send) and a close
 ]
 DFS_THOROUGH = [
     cfg_line(1, [0], [[0, 0], [0]]),
@@ -172,6 +177,8 @@ DFS_THOROUGH = [
     cfg_line(2, [1], [[0, 1], [1, 0]], eintr=2, cap=1),
     cfg_line(1, [0], [[0], [0], [0]], eintr=1),
     cfg_line(2, [], [[0, 1], [1]], sig=[(1, "l")], eintr=2, cap=2),
+    cfg_line(2, [0], [[0, 1, 0], [1, 0]], fork=2),
+    cfg_line(1, [0], [[0, 0], [0]], fork=1, eintr=1, cap=1),
 ]
 PROBE_FREE_IN_CB = cfg_line(1, [0], [[0]], free="cb")
 
@@ -186,7 +193,8 @@ def gen_rand_cfg(rng):
         t = rng.below(ns)
         v = rng.choice(["l"] + [x for x in range(ns) if x != t])
         sig = [(t, v)]
-    return cfg_line(nh, close, senders, sig, eintr=rng.choice([0, 0, 1, 2, 3]), cap=rng.choice([None, None, 1, 2]))
+    return cfg_line(nh, close, senders, sig, eintr=rng.choice([0, 0, 1, 2, 3]), cap=rng.choice([None, None, 1, 2]),
+                    fork=rng.choice([0, 0, 1, 2]))
 
 
 # ----------------------------------------------------------------------------- running and comparing
@@ -210,8 +218,8 @@ def in_window_switches(path_states):
     n = 0
     for i in range(1, len(path_states)):
         (t0, st0), (t1, _) = path_states[i - 1], path_states[i]
-        th0 = "l" if t0[0] in "lcfi" else "s" + t0[1:]
-        th1 = "l" if t1[0] in "lcfi" else "s" + t1[1:]
+        th0 = "l" if t0[0] in "lcfik" else "s" + t0[1:]
+        th1 = "l" if t1[0] in "lcfik" else "s" + t1[1:]
         if th0 == th1:
             continue
         if th0 == "l":
@@ -327,7 +335,7 @@ def report(ctx, exe, viols, label):
         seen.add(sig)
         rep = shrink(ctx, exe, sig, rep)
         ctx.violation(sig, f"C09 ({label}) {sig}: {what}; configuration `{rep['cfg']}`, schedule `{rep['sched']}` "
-                           f"(s<t> = next step of sender t, l = loop thread step, c<h> = uv_close(h), f = run close callbacks, e<t> = sender t's eventfd write answers EINTR, i = the loop's eventfd read answers EINTR)", rep)
+                           f"(s<t> = next step of sender t, l = loop thread step, c<h> = uv_close(h), f = run close callbacks, e<t> = sender t's eventfd write answers EINTR, i = the loop's eventfd read answers EINTR, k = fork + uv_loop_fork, continue in the child)", rep)
 
 
 def run(ctx):
@@ -340,15 +348,24 @@ def run(ctx):
                         "memory alive until uv_async_send calls already in flight have returned (see finding "
                         "close-cb-free-vs-send-in-flight for what happens otherwise)",
                         "uv_close is called on the loop thread only"]
-    seqs = gen_async_seq(ctx)
-    if seqs:
-        ctx.notes["extracted_sequences"] = {k: " ".join(v) for k, v in seqs.items()}
-    proofs_ok = ctx.require_lean(["UvModel.Props.C09"])
+    # Generated/AsyncSeq.lean is shared by every C09 run (possibly of different working trees, concurrently):
+    # regenerate + build + audit under one lock
+    with Locked(CACHE / "lock-c09-asyncseq"):
+        seqs = gen_async_seq(ctx)
+        if seqs:
+            ctx.notes["extracted_sequences"] = {k: " ".join(v) for k, v in seqs.items()}
+        proofs_ok = ctx.require_lean(["UvModel.Props.C09"])
     exe = ctx.harness("c09_sched", ["harness/c09_sched.c"], link_lib=True)
     if exe is None:
         return
     if ctx.replay:
         rep = json.loads(Path(ctx.replay).read_text())["replay"]
+        if "realfork" in rep:
+            rc, out, err = ctx.run(exe, text=f"realfork {rep['realfork']}\n", timeout=60)
+            print(out + err[-500:])
+            if "child cbA=1 cbB=1" not in out or "parent cbA=1 cbB=1" not in out:
+                ctx.violation("fork-child-send-not-delivered", "replay: " + out[-300:], rep)
+            return
         g = "noguard " if rep.get("noguard") else ""
         ok, viols, _ = run_batch(ctx, exe, f"{rep['cfg']}\nsched {g}{rep['sched']}\n", "replay")
         report(ctx, exe, viols, "replay")
@@ -372,11 +389,35 @@ def run(ctx):
         (cfg_line(2, [0], [[0, 1]]), "s0 s0 s0 s0 s0 s0 l l l c0 l l l s0 s0 s0 s0 s0 s0 l l l l f"),  # close inside a callback
         (cfg_line(1, [], [[0, 0]], eintr=3), "s0 s0 s0 s0 e0 e0 s0 s0 l i l l l s0 s0"),     # EINTR twice on the wake-up write, once on the drain
         (cfg_line(2, [], [[0], [1]], cap=1), "s0 s0 s0 s0 s0 s1 s1 s1 s1 s1 s1 s0 l l l l l l"),  # second write answers EAGAIN
+        (cfg_line(1, [], [[0, 0]], fork=1), "s0 s0 s0 s0 s0 s0 k s0 s0 s0 s0 s0 s0 l l l l"),   # send undelivered at fork time, send again in the child
+        (cfg_line(2, [], [[0], [1, 1]], fork=1), "s0 s0 s0 s0 s1 s1 s1 s1 s1 s1 k s1 s1 s1 s1 s1 s1 l l l l l l"),  # a sender mid-send does not exist in the child
     ]
     corpus.append((cfg_line(2, [0, 1], [[0]]), "s0 s0 s0 s0 s0 s0 l l l c0 l l c1 l l l l f"))   # h0's callback closes itself, then its neighbour
     corpus.append((cfg_line(1, [0], [[0], [0]]), "s0 s0 s0 s0 s1 s1 l l l l s1 s1 s1 s1 s1 c0 l s0 s0 l"))  # two overlapping senders, close while one is parked at the eventfd write
     for c, sc in corpus:
         batch(f"{c}\nsched {sc}\n", "corpus")
+
+    # real processes: fork() + uv_loop_fork() in the child with the real eventfd/epoll (no scheduler)
+    for variant in (0, 1, 2):
+        rc, out, err = ctx.run(exe, text=f"realfork {variant}\n", timeout=60)
+        ctx.count()
+        vals = dict(re.findall(r"realfork (child|parent|parent-pending) (cbA=\d+ cbB=\d+|cbA=\d+)", out))
+        bad = None
+        if rc != 0 or "childstatus=0" not in out:
+            bad = ("fork-harness-crash", f"harness rc={rc}: {_short(err)} {out[-300:]}")
+        elif vals.get("child") != "cbA=1 cbB=1":
+            bad = ("fork-child-send-not-delivered", f"after fork() + uv_loop_fork() a thread of the child called uv_async_send on two open handles "
+                   f"while the loop was blocked in uv_run: callbacks {vals.get('child')} (expected one each)")
+        elif vals.get("parent") != "cbA=1 cbB=1":
+            bad = ("fork-parent-send-not-delivered", f"after fork() the parent's sends: callbacks {vals.get('parent')}")
+        elif variant == 0 and vals.get("parent-pending") != "cbA=1":
+            bad = ("fork-parent-pending-send-lost", f"send undelivered at fork time not delivered in the parent: {vals.get('parent-pending')}")
+        if bad:
+            ctx.violation(bad[0], f"C09 (real fork, variant {variant}: {['send undelivered at fork time', 'idle at fork time', 'send delivered before fork'][variant]}) {bad[1]}",
+                          {"realfork": variant})
+        else:
+            ctx.validated()
+    ctx.notes["realfork"] = "3 variants, child and parent each receive sends from a second thread while blocked in uv_run"
 
     # the inherent window: memory released in close_cb while a uv_async_send call is in flight
     batch(f"{PROBE_FREE_IN_CB}\ndfs\n", "probe free-in-close_cb")
